@@ -19,6 +19,22 @@ pub(crate) fn s_of(v: &Val) -> String {
     String::from_utf8_lossy(&v.bytes()).into_owned()
 }
 
+// a value of more than 1024 octets is printed as [-7, length, sum mod 2^32, first 4, last 4]
+pub(crate) fn bytes_digest_val(b: &[u8]) -> Val {
+    if b.len() > 1024 {
+        let sum = b.iter().fold(0u32, |acc, x| acc.wrapping_add(*x as u32));
+        Val::L(vec![
+            i(-7),
+            Val::us(b.len()),
+            Val::n(sum),
+            Val::from_bytes(&b[..4]),
+            Val::from_bytes(&b[b.len() - 4..]),
+        ])
+    } else {
+        Val::from_bytes(b)
+    }
+}
+
 pub(crate) fn attr_val(a: &Attribute) -> Val {
     if let Some(v) = a.value() {
         Val::L(vec![Val::n(a.code()), Val::n(a.flags()), i(0), Val::L(vec![Val::n(v)])])
@@ -28,7 +44,7 @@ pub(crate) fn attr_val(a: &Attribute) -> Val {
             Val::n(a.code()),
             Val::n(a.flags()),
             i(if a.is_opaque() { 2 } else { 1 }),
-            Val::from_bytes(b),
+            bytes_digest_val(b),
         ])
     }
 }
@@ -195,6 +211,11 @@ pub(crate) fn api_val(a: &api::Attribute) -> Val {
                     .collect(),
             ),
         ]),
+        Some(A::MpReach(m)) => Val::L(vec![
+            i(12),
+            Val::opt(m.family.as_ref().map(|f| Val::L(vec![Val::n(f.afi), Val::n(f.safi)]))),
+            Val::L(m.next_hops.iter().map(|s| s_val(s)).collect()),
+        ]),
         Some(_) => Val::L(vec![i(99)]),
     }
 }
@@ -249,6 +270,19 @@ pub(crate) fn api_of(v: &Val) -> api::Attribute {
                 })
                 .collect(),
         })),
+        12 => Some(A::MpReach(api::MpReachNlriAttribute {
+            family: l[1].list().first().map(|_| api::Family {
+                afi: l[1].at(0).int() as i32,
+                safi: l[1].at(1).int() as i32,
+            }),
+            next_hops: l[2].list().iter().map(s_of).collect(),
+            nlris: vec![],
+        })),
+        13 => Some(A::MpUnreach(api::MpUnreachNlriAttribute { family: None, nlris: vec![] })),
+        15 => Some(A::As4Path(api::As4PathAttribute { segments: vec![] })),
+        16 => Some(A::As4Aggregator(api::As4AggregatorAttribute { asn: 1, address: "1.2.3.4".to_string() })),
+        17 => Some(A::PmsiTunnel(api::PmsiTunnelAttribute { flags: 0, r#type: 6, label: 1, id: vec![1, 2, 3, 4] })),
+        19 => Some(A::Ip6ExtendedCommunities(api::Ip6ExtendedCommunitiesAttribute { communities: vec![] })),
         _ => Some(A::Aigp(api::AigpAttribute { tlvs: vec![] })),
     };
     api::Attribute { attr }
